@@ -24,7 +24,7 @@ class Copy(Command):
     output = params.DataParameter()
 
     def execute(self, **kwargs):
-        return numpy.copy(kwargs["InFieldName"].result)
+        return kwargs["InFieldName"].result.copy()
 
 
 class AMinusB(SameArrayShapeMixin, Command):
@@ -111,7 +111,7 @@ class Multiply(SameArrayShapeMixin, Command):
         arrays = [c.result for c in kwargs["InFieldNames"]]
         self.validate_array_shapes(arrays, lineno=self.lineno)
 
-        result = numpy.copy(arrays[0])
+        result = arrays[0].copy()
         for arr in arrays[1:]:
             result *= arr
 
@@ -310,6 +310,8 @@ class NormalizeCat(Command):
 
         for raw, normal in zip(raw_values, normal_values):
             result[arr.data == raw] = normal
+
+        result.mask = arr.mask.copy()
 
         return result
 
